@@ -144,7 +144,11 @@ class RecordRun:
         self.sink = []
 
     # -- helpers
-    def _ident(self, data):
+    def _ident(self, data, pos=None):
+        # the k-th item received that equals the k-th payload sent *is* that payload as far as any application can
+        # tell (two empty records are the same bytes); only otherwise search for another payload it could be
+        if pos is not None and pos < len(self.payloads) and self.payloads[pos] == data:
+            return pos + 1
         for i, p in enumerate(self.payloads):
             if p == data:
                 return i + 1
@@ -255,7 +259,7 @@ class RecordRun:
 
     def _read_ok(self, idx, r):
         self.reads[idx] = "ok"
-        self.got.append(self._ident(r))
+        self.got.append(self._ident(r, len(self.got)))
 
     def _recv(self):
         frame, _flag = self.wire.pop(0)
@@ -312,7 +316,7 @@ class RecordRun:
     def _collect(self):
         if self.consumer_mode:
             # FileConsumer.write is called once per record (empty records included)
-            self.got = [self._ident(b) for b in self.sink]
+            self.got = [self._ident(b, k) for k, b in enumerate(self.sink)]
 
     def finish(self):
         # whatever was held back for coalescing is flushed (it was sent; only its timing was the adversary's)
@@ -335,7 +339,7 @@ class RecordRun:
             if n not in ("BadNonce", "CryptoError", "ConnectionDone", "ConnectionLost", "BadHandshake", "ValueError"):
                 self.internal.append("%s: %s" % (n, str(e)[:80]))
         log.removeObserver(self.logged)
-        queued_ids = [self._ident(r) for r in self.dst._inbound_records]
+        queued_ids = [self._ident(r, len(self.got) + k) for k, r in enumerate(self.dst._inbound_records)]
         rec = {"tid": self.tid, "sent": list(range(1, len(self.payloads) + 1)), "got": self.got + queued_ids,
                "atTamper": self.at_tamper, "desync": self.desync, "state": state if state in ("records", "hung up", "lost") else str(state),
                "pendingReads": sum(1 for r in self.reads if r is None), "consumerDone": self.consumer_done,
